@@ -777,13 +777,24 @@ class World:
         if m.has_extra:
             return []
         duid = self.resolve_ref(op["dflt"]) if "dflt" in op else None
+        like = None
+        if "like" in op:
+            # the ready-made definition of another node's instance trait is handed
+            # to add_trait (each object must still get a trait of its own)
+            lm = self.mnodes[self.idx(op["like"])]
+            if lm is not m and lm.has_extra:
+                like = lm
+                duid = None if lm.extra_default is None else lm.extra_default.uid
         m.has_extra = True
         if duid is not None:
             # a trait whose *constant* default is an existing observable object
             # (shared, not created per owner): nothing is stored until it is read
             m.extra_default = self.model(duid)
         if self.sut_on:
-            tdef = Instance(NodeBase) if duid is None else Any(self.node(duid))
+            if like is not None:
+                tdef = self.n_of(like).trait("extra")
+            else:
+                tdef = Instance(NodeBase) if duid is None else Any(self.node(duid))
             self._do(step, "add_trait", n.add_trait, "extra", tdef)
         return [Change("trait_added", mobj=m, obj=n, name="extra", changed=True)]
 
@@ -796,7 +807,12 @@ class World:
         m.has_tagged = True
         m.tagged = UNSET
         if self.sut_on:
-            self._do(step, "add_trait", n.add_trait, "tagged", Int(tag=True))
+            tdef = Int(tag=True)
+            if "like" in op:
+                lm = self.mnodes[self.idx(op["like"])]
+                if lm is not m and lm.has_tagged:
+                    tdef = self.n_of(lm).trait("tagged")
+            self._do(step, "add_trait", n.add_trait, "tagged", tdef)
         return [Change("trait_added", mobj=m, obj=n, name="tagged", changed=True)]
 
     def op_read_extra(self, op, step):
